@@ -562,18 +562,42 @@ func (s *MutableState) SetNode(ctx context.Context, existingNode, node *node.Nod
 	}
 
 	// Update indices mapping various keys to nodes.
-
-	// Consensus key.
-	if existingNode != nil && !existingNode.Consensus.ID.Equal(node.Consensus.ID) {
-		// Remove old consensus address mapping if it has changed.
-		address := []byte(tmcrypto.PublicKeyToCometBFT(&existingNode.Consensus.ID).Address())
-		if err = s.ms.Remove(ctx, nodeByConsAddressKeyFmt.Encode(address)); err != nil {
-			return abciAPI.UnavailableStateError(err)
+	//
+	// All stale mappings are removed before any of the current ones are inserted: a node may move one of its
+	// keys to another role (e.g. use its previous TLS key as its new P2P key), and removing a changed key after
+	// inserting the new ones would drop the mapping that was just created for it.
+	if existingNode != nil {
+		if !existingNode.Consensus.ID.Equal(node.Consensus.ID) {
+			// Remove old consensus address mapping if it has changed.
+			address := []byte(tmcrypto.PublicKeyToCometBFT(&existingNode.Consensus.ID).Address())
+			if err = s.ms.Remove(ctx, nodeByConsAddressKeyFmt.Encode(address)); err != nil {
+				return abciAPI.UnavailableStateError(err)
+			}
+			if err = s.ms.Remove(ctx, keyMapKeyFmt.Encode(&existingNode.Consensus.ID)); err != nil {
+				return abciAPI.UnavailableStateError(err)
+			}
 		}
-		if err = s.ms.Remove(ctx, keyMapKeyFmt.Encode(&existingNode.Consensus.ID)); err != nil {
-			return abciAPI.UnavailableStateError(err)
+		if !existingNode.P2P.ID.Equal(node.P2P.ID) {
+			// Remove old P2P key mapping if it has changed.
+			if err = s.ms.Remove(ctx, keyMapKeyFmt.Encode(&existingNode.P2P.ID)); err != nil {
+				return abciAPI.UnavailableStateError(err)
+			}
+		}
+		if !existingNode.VRF.ID.Equal(node.VRF.ID) {
+			// Remove old VRF key if it has changed.
+			if err = s.ms.Remove(ctx, keyMapKeyFmt.Encode(&existingNode.VRF.ID)); err != nil {
+				return abciAPI.UnavailableStateError(err)
+			}
+		}
+		if !existingNode.TLS.PubKey.Equal(node.TLS.PubKey) {
+			// Remove old TLS key mapping if it has changed.
+			if err = s.ms.Remove(ctx, keyMapKeyFmt.Encode(&existingNode.TLS.PubKey)); err != nil {
+				return abciAPI.UnavailableStateError(err)
+			}
 		}
 	}
+
+	// Consensus key.
 	address := []byte(tmcrypto.PublicKeyToCometBFT(&node.Consensus.ID).Address())
 	if err = s.ms.Insert(ctx, nodeByConsAddressKeyFmt.Encode(address), rawNodeID); err != nil {
 		return abciAPI.UnavailableStateError(err)
@@ -581,36 +605,15 @@ func (s *MutableState) SetNode(ctx context.Context, existingNode, node *node.Nod
 	if err = s.ms.Insert(ctx, keyMapKeyFmt.Encode(&node.Consensus.ID), rawNodeID); err != nil {
 		return abciAPI.UnavailableStateError(err)
 	}
-
 	// Committee P2P key.
-	if existingNode != nil && !existingNode.P2P.ID.Equal(node.P2P.ID) {
-		// Remove old P2P key mapping if it has changed.
-		if err = s.ms.Remove(ctx, keyMapKeyFmt.Encode(&existingNode.P2P.ID)); err != nil {
-			return abciAPI.UnavailableStateError(err)
-		}
-	}
 	if err = s.ms.Insert(ctx, keyMapKeyFmt.Encode(&node.P2P.ID), rawNodeID); err != nil {
 		return abciAPI.UnavailableStateError(err)
 	}
-
 	// VRF key.
-	if existingNode != nil && !existingNode.VRF.ID.Equal(node.VRF.ID) {
-		// Remove old VRF key if it has changed.
-		if err = s.ms.Remove(ctx, keyMapKeyFmt.Encode(&existingNode.VRF.ID)); err != nil {
-			return abciAPI.UnavailableStateError(err)
-		}
-	}
 	if err = s.ms.Insert(ctx, keyMapKeyFmt.Encode(&node.VRF.ID), rawNodeID); err != nil {
 		return abciAPI.UnavailableStateError(err)
 	}
-
 	// Committee TLS key.
-	if existingNode != nil && !existingNode.TLS.PubKey.Equal(node.TLS.PubKey) {
-		// Remove old TLS key mapping if it has changed.
-		if err = s.ms.Remove(ctx, keyMapKeyFmt.Encode(&existingNode.TLS.PubKey)); err != nil {
-			return abciAPI.UnavailableStateError(err)
-		}
-	}
 	if err = s.ms.Insert(ctx, keyMapKeyFmt.Encode(&node.TLS.PubKey), rawNodeID); err != nil {
 		return abciAPI.UnavailableStateError(err)
 	}
